@@ -280,12 +280,16 @@ def _p1_event(vc, as_operator=False):
     vc.canary('canary.event_never_touches', 'touch' not in names)
 
     # (3) cleaning: exactly the dead records, iff autoclean
-    any_dead = recs.exists(s_dead)
+    # C13: "expired records of OTHERS are cleaned up" -- the operator's own record, also an expired one left by a killed
+    # predecessor under the same fixed identity, belongs to its keep-alive: clean() is an unconditional {identity: null}
+    # merge patch and would erase the record the restarted operator has just written (F-C13-2, fixed in /repo)
+    def s_dead_other(i): return And(s_dead(i), Not(Eq(recs.get('id', i), me)))
+    any_dead = recs.exists(s_dead_other)
     cleans = [ev[1] for ev in tr if ev[0] == 'clean']
     ens('event.clean_exactly_dead', Iff(len(cleans) == 1, And(autoclean, any_dead)))
     vc.ensure('event.clean_exactly_dead', len(cleans) <= 1)
     for kw in cleans:
-        ens('event.clean_exactly_dead', ext.coll_is(kw['peers'], recs, s_dead, lambda p: p.identity, lambda i: recs.get('id', i)))
+        ens('event.clean_exactly_dead', ext.coll_is(kw['peers'], recs, s_dead_other, lambda p: p.identity, lambda i: recs.get('id', i)))
         vc.ensure('event.clean_exactly_dead', kw['settings'] is settings and kw['resource'] is resource and kw['namespace'] is namespace)
     if raised is not None and names[-1] == 'clean':
         vc.ensure('event.failures_propagate', raised is failed[-1])
